@@ -820,6 +820,59 @@ func (r *refactorer) shorthandCase() bool {
 	return true
 }
 
+// nameGroupingsLikeNodes renames some groupings of the module and its submodules to the name of a data node that stands
+// next to one of their uses (groupings and data nodes have separate namespaces, RFC 7950 6.2.1).
+func (r *refactorer) nameGroupingsLikeNodes() {
+	files := append([]*yst{r.mod}, r.subs...)
+	taken := map[string]bool{}
+	var names func(s *yst)
+	names = func(s *yst) {
+		for _, k := range s.Kids {
+			if k.Kw == "grouping" {
+				taken[k.Arg] = true
+			}
+			names(k)
+		}
+	}
+	for _, f := range files {
+		names(f)
+	}
+	var rename func(s *yst, from, to string)
+	rename = func(s *yst, from, to string) {
+		for _, k := range s.Kids {
+			if (k.Kw == "uses" || k.Kw == "grouping") && k.Arg == from {
+				k.Arg = to
+			}
+			rename(k, from, to)
+		}
+	}
+	var walk func(s *yst)
+	walk = func(s *yst) {
+		for _, k := range s.Kids {
+			if k.Kw == "uses" && !strings.Contains(k.Arg, ":") && taken[k.Arg] {
+				// a data node next to this uses
+				for _, sib := range s.Kids {
+					if (sib.Kw == "leaf" || sib.Kw == "container" || sib.Kw == "list" || sib.Kw == "leaf-list") && !taken[sib.Arg] &&
+						rapid.IntRange(0, 3).Draw(r.t, "grouping-named-like-node") == 0 {
+						old := k.Arg
+						for _, f := range files {
+							rename(f, old, sib.Arg)
+						}
+						delete(taken, old)
+						taken[sib.Arg] = true
+						r.steps = append(r.steps, "grouping-named-like-a-node")
+						break
+					}
+				}
+			}
+			walk(k)
+		}
+	}
+	for _, f := range files {
+		walk(f)
+	}
+}
+
 // aliasGroupings gives groupings that live in scopes of which neither encloses the other the same name (each is only
 // visible in its own scope, so the names do not clash; every uses keeps meaning the grouping it meant).
 func (r *refactorer) aliasGroupings() {
@@ -1038,6 +1091,7 @@ func c01Gen0(t *rapid.T) c01Case {
 		}
 	}
 	r.splitSubmodule()
+	r.nameGroupingsLikeNodes()
 	r.aliasGroupings()
 	r.respellAugments()
 	files := map[string]string{}
